@@ -290,7 +290,7 @@ func run(path string) {
 		if e.Exp.Mixed {
 			cls = "coinbase-mixed"
 		}
-		rep := map[string]interface{}{"tx": e.Tx, "spec": e.Exp, "code_accepted": o.accepted, "code_fee": o.reported,
+		rep := map[string]interface{}{"export": json.RawMessage(doc), "tx": e.Tx, "spec": e.Exp, "code_accepted": o.accepted, "code_fee": o.reported,
 			"code_txfee": o.txfee, "code_err": o.errClass, "panic": o.panicked}
 		if o.panicked != "" {
 			cnt["panics"]++
